@@ -112,6 +112,9 @@ def _mapper_config(run, P):
     sites.append((f, None))
     g = P.func("dagrt.utils.get_variables")
     sites.append((g, None))
+    sb = P.cls("dagrt.language.StatementBase").methods.get("get_dependency_mapper")
+    if sb is not None:
+        sites.append((sb, None))
     for fn, _ in sites:
         ctor_calls = []
         args_dict = {}
@@ -139,6 +142,14 @@ def _mapper_config(run, P):
                    construct=f"include_subscripts={norm(sub) if sub else 'default'}",
                    why="with include_subscripts true the mapper returns the "
                        "subscript node itself and the index variables are lost")
+            lk = get("include_lookups")
+            ok = isinstance(lk, ast.Constant) and lk.value is False
+            run.ob("C08.mapper", fn, c, ok,
+                   construct=f"include_lookups={norm(lk) if lk else 'default (True)'}",
+                   why="with include_lookups true the mapper returns the Lookup node "
+                       "itself (pymbolic DependencyMapper.map_lookup) and callers take "
+                       "its .name, the attribute: 'z.real' declares a read of 'real' "
+                       "and none of 'z'")
             calls = get("include_calls")
             ok = _descends(calls, fn)
             run.ob("C08.mapper", fn, c, ok,
@@ -159,6 +170,22 @@ def _mapper_config(run, P):
     run.ob("C08.mapper", dm, mc.node if mc else dm.node, ok,
            construct="DependencyMapper.map_call descend_args branch",
            why="trusted base: 'descend_args' must recurse into expr.parameters")
+    ml = dm.methods.get("map_lookup")
+    ok = False
+    if ml is not None:
+        src = ast.unparse(ml.node)
+        ok = "if self.include_lookups" in src and "super().map_lookup" in src
+    init = dm.methods.get("__init__")
+    dflt_true = False
+    if init is not None:
+        a_ = init.node.args
+        for arg_, d_ in zip(reversed(a_.args), reversed(a_.defaults)):
+            if arg_.arg == "include_lookups" and isinstance(d_, ast.Constant) and d_.value is True:
+                dflt_true = True
+    run.ob("C08.mapper", dm, ml.node if ml else dm.node, ok and dflt_true,
+           construct="DependencyMapper.map_lookup returns the node itself when include_lookups "
+                     "(default True), else descends",
+           why="trusted base: the flag must be switched off explicitly")
     ms = dm.methods.get("map_subscript")
     ok = False
     if ms is not None:
@@ -340,6 +367,7 @@ def _flow_func(run, P, f, meth, rule="C08.flow"):
         return False
 
     _skip_and_subtract(run, P, f, stmts, is_source, rule)
+    _no_bypass(run, P, f, is_source, rule)
 
     for s in stmts:
         if isinstance(s, (ast.FunctionDef, ast.ClassDef)):
@@ -376,6 +404,45 @@ def _flow_func(run, P, f, meth, rule="C08.flow"):
             run.ob(rule, f, s, ok,
                    construct=f"{norm(c, 60)} in {norm(s, 90)}",
                    why=why or "flows to the return value")
+
+
+def _no_bypass(run, P, f, is_source, rule):
+    """No return is reached on a path that by-passes a collection which the
+    function's last return is always preceded by (an early exit taken for one
+    operand must not skip the collection of another)."""
+    from ..engine.cfg import CFG, walk_fragment, own_fragments
+    g = CFG(f.node)
+    rets = [n for n in g.nodes if n.kind == "stmt" and isinstance(n.ast, ast.Return)]
+    if len(rets) < 1:
+        return
+    final = max(rets, key=lambda n: (n.ast.lineno, n.ast.col_offset))
+    src_nodes = [n for n in g.nodes if n.ast is not None and any(
+        is_source(x) for fr in own_fragments(n) for x in walk_fragment(fr))]
+    # decision points guarding a collection: if/for heads whose body holds a source
+    heads = []
+    for n in g.nodes:
+        if n.kind in ("test", "for") and n.label is not None or n.kind == "for":
+            st = n.label if n.kind == "test" else n.ast
+            body = getattr(st, "body", []) + getattr(st, "orelse", [])
+            if any(is_source(x) for b in body for x in ast.walk(b)):
+                heads.append(n)
+    must = [n for n in src_nodes + heads if n is not final and not g.always_preceded([final], [n])]
+    bad = []
+    for r in rets:
+        if r is final:
+            continue
+        for m in must:
+            if m is r:
+                continue
+            if g.always_preceded([r], [m]):
+                bad.append((r, m))
+    run.ob(rule, f, bad[0][0].ast if bad else f.node, not bad,
+           construct=f"{f.qualname}: no return by-passes a collection that the last return "
+                     f"is always preceded by ({len(rets)} return(s), {len(must)} collection points)"
+                     + (f"; early return skips: {norm(bad[0][1].ast, 60)}" if bad else ""),
+           why="an early exit for one operand (a literal right-hand side, say) skips the "
+               "collection of another (the subscript of the assignee): that operand's "
+               "variables get no dependency edge")
 
 
 def _arg_names(call):
@@ -520,6 +587,49 @@ def _ident(run, P, classes):
                         f"with the identity would change the read/write sets"))
         # positional shape of loops elements
         _loop_shape(run, P, K)
+    _only_mapper(run, P, classes)
+
+
+# callables that build or take apart containers / nodes without changing what an
+# expression means; everything else applied on the way from mapper(...) to copy()
+# post-processes the mapped value
+_SHAPE_ONLY = {"tuple", "list", "dict", "set", "frozenset", "zip", "enumerate", "sorted",
+               "isinstance", "all", "any", "len", "type", "super", "Variable", "var",
+               "immutabledict", "getattr"}
+
+
+def _only_mapper(run, P, classes):
+    seen = set()
+    for K in classes:
+        for f in sm._chain(P, K, "map_expressions"):
+            if f in seen:
+                continue
+            seen.add(f)
+            mp = f.params[1] if len(f.params) > 1 else "mapper"
+            odd = []
+            for x in ast.walk(f.node):
+                if not isinstance(x, ast.Call):
+                    continue
+                d = dotted(x.func)
+                if d is None:
+                    # call on a call result: super().map_expressions(...).copy(...)
+                    if isinstance(x.func, ast.Attribute) and x.func.attr in ("copy", "map_expressions"):
+                        continue
+                    odd.append(norm(x.func, 40))
+                    continue
+                last = d.rsplit(".", 1)[-1]
+                if d == mp or d in _SHAPE_ONLY or last in ("items", "values", "keys", "copy",
+                                                            "map_expressions", "as_expression"):
+                    continue
+                odd.append(d)
+            run.ob("C08.ident", f, f.node, not odd,
+                   construct=f"{f.qualname}: mapped values are passed on as the mapper returned "
+                             f"them" + (f" (also applied: {sorted(set(odd))})" if odd else ""),
+                   why="a field that is post-processed after mapping (flattened, simplified, "
+                       "normalised) is changed by the identity mapping whenever that "
+                       "processing is not idempotent on what the constructor stored: "
+                       "pymbolic's flatten turns 0*k into 0, so the copy no longer reads k "
+                       "while the original does")
 
 
 def _loop_shape(run, P, K):
